@@ -265,7 +265,7 @@ def r3(ctx):
 def display_text(ctx, eng, ty, value):
     key = f"<{ty} as core::fmt::Display>::fmt"
     ctx.used_body(key)
-    leaves = eng.tabulate(key, args=[("refv", value), ("param", 1, "f")])
+    leaves = eng.tabulate(key, args=[("refv", value), ("param", 1, "a1")])
     if len(leaves) != 1:
         return None
     return T.emitted_text(leaves[0].trace)
@@ -376,7 +376,7 @@ def r5(ctx):
                     is_refv = arg0[0] == "refv" and arg0[1] == ("field", ("obj", ("param", 0, "self")), "range")
                     if not (is_ref or is_refv):
                         fwd_ok = False
-                    if m in ("nth", "nth_back") and (len(a[2]) < 2 or a[2][1] != ("param", 1, "n")):
+                    if m in ("nth", "nth_back") and (len(a[2]) < 2 or a[2][1] != ("param", 1, "a1")):
                         fwd_ok = False
                 if not apps:
                     fwd_ok = False
